@@ -287,8 +287,8 @@ def cfgs_sub(start=(0,)):
     fam.append(("skipquoted", "quoted", st([k("skipquoted")]), 6, 7))
     return fam
 
-SHIFTS_Q = [1, 2, 7, 255, 256, 65000]
-SHIFTS_T = [1, 2, 3, 7, 8, 255, 256, 257, 4095, 4096, 32767, 32768, 65000, 65400]
+SHIFTS_Q = [1, 2, 7, 255, 256, 65000, -1]        # (-1: the text ends exactly at offset 65 535, -2: one byte before)
+SHIFTS_T = [1, 2, 3, 7, 8, 255, 256, 257, 4095, 4096, 32767, 32768, 65000, 65400, -1, -2]
 
 def explore_sub(ctx, props, start=(0,), shifts=None, fams=None):
     for name, ak, cfgs, nq, nt in cfgs_sub(start):
